@@ -92,11 +92,16 @@ ZeroCnt == [c \in Callbacks |-> 0]
 Modes == {"normal", "beforeNil", "shortcut"}
 Reached(m) == CASE m = "normal" -> Callbacks [] m = "beforeNil" -> {"resolve", "before"} [] m = "shortcut" -> {"after"}
 
+\* sc.prewire[h]: single-valued targets whose field the USER filled by hand (with the registered raw object) before the start -
+\* the same instances started a second time, or defaults wired in a constructor.  It must not influence anything: the
+\* dependency is still fetched (created, initialised first) and the field ends up holding the published version.
+PrewireOf(s, h) == IF "prewire" \in DOMAIN s THEN s.prewire[h] ELSE {}
+InitFS(s) == [h \in Node |-> [t \in Node |-> IF t \in PrewireOf(s, h) THEN [n |-> t, k |-> "raw", o |-> "raw"] ELSE NoV]]
 InitWith(s) ==
   /\ sc = s
   /\ L1 = [n \in Node |-> NoV] /\ L2 = [n \in Node |-> NoV] /\ L3 = {} /\ inCr = {}
   /\ stack = <<>>
-  /\ fS = [h \in Node |-> [t \in Node |-> NoV]] /\ fL = [h \in Node |-> <<>>]
+  /\ fS = InitFS(s) /\ fL = [h \in Node |-> <<>>]
   /\ deps = [n \in Node |-> [k \in MetaKinds |-> {}]]
   /\ earlyRuns = [n \in Node |-> 0] /\ seen = [n \in Node |-> {}]
   /\ phase = [n \in Node |-> "new"] /\ cnt = [n \in Node |-> ZeroCnt]
@@ -106,7 +111,7 @@ ResetTo(s) ==
   /\ sc' = s
   /\ L1' = [n \in Node |-> NoV] /\ L2' = [n \in Node |-> NoV] /\ L3' = {} /\ inCr' = {}
   /\ stack' = <<>>
-  /\ fS' = [h \in Node |-> [t \in Node |-> NoV]] /\ fL' = [h \in Node |-> <<>>]
+  /\ fS' = InitFS(s) /\ fL' = [h \in Node |-> <<>>]
   /\ deps' = [n \in Node |-> [k \in MetaKinds |-> {}]]
   /\ earlyRuns' = [n \in Node |-> 0] /\ seen' = [n \in Node |-> {}]
   /\ phase' = [n \in Node |-> "new"] /\ cnt' = [n \in Node |-> ZeroCnt]
@@ -131,6 +136,12 @@ NoLook == [n \in Node |-> 0]
 
 \* a required point that only the holder itself could satisfy
 SelfOnly(s, h) == s.mode[h] # "shortcut" /\ ((h \in s.single[h] /\ ~s.selfOpt[h]) \/ (s.slice[h] = {h} /\ ~s.sliceOpt[h]))
+
+\* sc.late[h]: the holder's slice point is served by a USER-WRITTEN collector that runs after the library's further matching (a
+\* custom tag, an unordered processor setting Property.Injects itself): the library's resolution-time self filter never sees
+\* those candidates, the holder is among them when it matches, and only Property.Inject's own filter keeps it out of the field.
+\* (Such a point is optional: a required point without candidates fails in further matching, before the collector runs.)
+LateOf(s, h) == IF "late" \in DOMAIN s THEN s.late[h] ELSE FALSE
 
 \* Meta.IsSelf: the candidate's origin address is the holder's own object
 IsSelf(h, v) == v.n = h /\ v.o = "raw"
@@ -265,7 +276,7 @@ Resolve ==
      /\ stack' = [stack EXCEPT ![Len(stack)] =
                  IF sc.fail[n] = "resolve" THEN [Top EXCEPT !.pc = "fail"]
                  ELSE [Top EXCEPT !.pc = "pop", !.todoS = IF FixF3 THEN sc.single[n] \ {n} ELSE sc.single[n],
-                                              !.todoL = IF FixF3 THEN sc.slice[n] \ {n} ELSE sc.slice[n]]]
+                                              !.todoL = IF FixF3 /\ ~LateOf(sc, n) THEN sc.slice[n] \ {n} ELSE sc.slice[n]]]
      /\ cnt' = Bump(n, "resolve")
   /\ UNCHANGED <<sc, pinit, ran, L1, L2, L3, inCr, fS, fL, deps, earlyRuns, seen, phase, queue, status, lookups, failedEver>>
 
